@@ -24,6 +24,28 @@ Example C16_renewal_instant_examples :
   go_renewalDelay 1000000000 = 750000000 /\ go_renewalDelay 2500000000 = 1875000000 /\ go_renewalDelay 3600000000000 = 2700000000000.
 Proof. vm_compute. repeat split; reflexivity. Qed.
 
+(* which lifetime: the smaller of the requested one and the one the server granted (both uint32 milliseconds),
+   in nanoseconds.  go_tokenLifetime is translated from the statements of handleOpenSecureChannelResponse that set
+   instance.revisedLifetime (or from a helper tokenLifetime, should the code be restructured) *)
+Theorem C16_token_lifetime : forall requested revised, 0 <= requested < 4294967296 -> 0 <= revised < 4294967296 ->
+  go_tokenLifetime requested revised = 1000000 * Z.min requested revised.
+Proof.
+  intros q v Hq Hv. unfold go_tokenLifetime. cbv zeta.
+  replace (1000000 * v) with (v * 1000000) by lia. rewrite Z.quot_mul by lia.
+  destruct (Z.ltb_spec q v); lia.
+Qed.
+
+(* hence the renewal comes before the token the SERVER issued expires, and not before half of the lifetime in use *)
+Theorem C16_renewal_before_granted_lifetime_ends : forall requested revised,
+  1 <= requested < 4294967296 -> 1 <= revised < 4294967296 ->
+  go_renewalDelay (go_tokenLifetime requested revised) < 1000000 * revised /\
+  go_tokenLifetime requested revised <= 2 * go_renewalDelay (go_tokenLifetime requested revised).
+Proof.
+  intros q v Hq Hv. rewrite C16_token_lifetime by lia.
+  assert (B : 8 <= 1000000 * Z.min q v) by lia.
+  destruct (renewal_delay_bounds _ B) as [H1 H2]. split; [lia|exact H1].
+Qed.
+
 (* what the fix repaired: time.Second * time.Duration(lifetime.Seconds() * 0.75), i.e. whole-second truncation
    (exact transcription for lifetimes that are whole milliseconds, where the float computation is exact) *)
 Definition renew_at_before_fix (L : Z) : Z := 1000000000 * Z.quot (L * 3) 4000000000.
@@ -99,6 +121,8 @@ Proof. split; reflexivity. Qed.
 
 Print Assumptions C16_renewal_instant.
 Print Assumptions C16_renewal_instant_ms.
+Print Assumptions C16_token_lifetime.
+Print Assumptions C16_renewal_before_granted_lifetime_ends.
 Print Assumptions C16_refuted_instant_before_fix.
 Print Assumptions C16_once_per_token_source.
 Print Assumptions C16_no_chunk_under_superseded_token.
